@@ -952,8 +952,9 @@ def _x_roots(draw, og):
 @extra("aspolynomial-args")
 def _x_aspoly(draw, og):
     """aspolynomial / polynomial with explicit names= / dtype= (the no-copy shortcuts live here)"""
-    a = og.array(draw, max_ndim=2)
-    return {"args": [P(a)], "kw": {"how": draw(st.sampled_from(["names-prefix", "names-same", "names-poly", "dtype-same",
+    a = og.array(draw, max_ndim=2, names=draw(st.sampled_from([None, None, ["q0", "q1", "q3"], ["q1", "q2"], ["q2", "q10"]])))
+    return {"args": [P(a)], "kw": {"how": draw(st.sampled_from(["names-prefix", "names-prefix", "names-prefix",
+                                                             "names-same", "names-poly", "dtype-same",
                                                              "dtype-other", "polynomial-names"]))}}
 
 
